@@ -91,6 +91,12 @@ def cases(rng, tier):
         c = {"t": "int", "i": w(j) if which in ("col", "both", "list") else j}
         out.append({"prop": rng.choice(["C02", "C03"]) if False else "C02",
                     "case": {"lens": lens, "idx": {"r": r, "c": c}, "dtype": "int64", "vseed": rng.randint(0, 999), "variant": rng.randint(0, 29)}})
+    # NO row selected (empty list, all-false mask, empty slice) next to an integer column of any size: an empty result under both widths
+    for _ in range(60 if tier == "quick" else 600):
+        lens = [rng.randint(0, 4) for _ in range(rng.randint(1, 4))]
+        r = rng.choice([{"t": "list", "is": []}, {"t": "mask", "bs": [False] * len(lens)}, {"t": "slice", "a": 1, "b": 1, "k": None}, {"t": "slice", "a": 5, "b": None, "k": 2}])
+        c = {"t": "int", "i": rng.choice([0, 1, -1, 7, 2 ** 31 - 1, 2 ** 31, -(2 ** 31) - 1, 2 ** 40, -(2 ** 40), 2 ** 63 - 1])}
+        out.append({"prop": "C02", "case": {"lens": lens, "idx": {"r": r, "c": c}, "dtype": "int64", "vseed": rng.randint(0, 999), "variant": rng.randint(0, 29)}})
     # ragged operands whose shapes differ only in the NUMBER of rows (one empty row against several, none against one, one cell in
     # all): refused under both widths
     for _ in range(60 if tier == "quick" else 600):
